@@ -163,7 +163,8 @@ def run(ck):
                'D3 the 13 arithmetic operator impls compute with their own operator in (self, rhs) order',
                'D4 the classification predicates are the reference predicates over the canonical representative',
                'D5 limit_denominator returns its argument unchanged when the denominator is within the bound (exact hits)')
-    ck.not_decided('limit_denominator continued-fraction optimality', 'float round-trip', 'group laws as value-level equalities (they follow from D1-D3 and Ratio arithmetic, which is trusted)')
+    ck.decided('D6 limit_denominator is step for step CPython Fraction.limit_denominator (initial convergents, floor quotient, exit test before the update, state update, k, the tie rule 2*d*(q0+k*q1) <= denominator, both candidates), compared as polynomial transition functions modulo renaming')
+    ck.not_decided('that the reference algorithm itself returns the closest fraction (number theory; the reference is the trusted base the statement names)', 'float round-trip', 'group laws as value-level equalities (they follow from D1-D3 and Ratio arithmetic, which is trusted)')
     # D1
     for key, ok, site, msg in d1_encap(ck, facts):
         ck.ob('R-ENCAP', 'Phase/' + key, ok, ck.site(site) if site in ck.fns else site, msg, sample={'check': key})
@@ -219,12 +220,28 @@ def run(ck):
                     hit = True
     dl = [n for n in hir.nodes(lf['hir']) if n.get('k') == 'Let' and n['pat'].get('k') == 'Bind' and n['pat']['name'] == 'denom' and 'denom()' in hir.pp(n['init'])]
     ck.ob('R-PATH', lk + '/exact-hit', hit and len(dl) == 1, ck.site(lk), 'a fraction whose denominator is <= the bound must be returned unchanged (exact hits, as Python\'s Fraction.limit_denominator); with a strict comparison the bound itself enters the search loop')
+    # D6: the algorithm is CPython's Fraction.limit_denominator (the reference the property names): transition functions compared on polynomial normal forms
+    from .. import refequiv
+    try:
+        for slot, ok, msg in refequiv.analyse(ck.fn(lk)):
+            if slot == 'naming':
+                ck.note('limit_denominator: locals matched to the reference variables as ' + msg)
+                continue
+            ck.ob('R-REFEQ', lk + '/' + slot, ok, ck.site(lk), msg, sample={'slot': slot})
+    except refequiv.NotUnderstood as ex:
+        ck.violation('R-REFEQ', lk + '/shape', ck.site(lk), 'limit_denominator is no longer a straight-line continued-fraction loop the symbolic executor understands (%s) (not-established-by-recognised-idiom)' % ex)
+    ck.floor('R-REFEQ', ck.rules.get('R-REFEQ', [0, 0])[0], 6)
     # positive controls
     fx = fixture()
     ck.control('E3-range refutes the `<=` mutant of normalize', any(not p['ok'] for p in d2_normalize(fx, 'phase::Phase::normalize')))
     ck.control('R-OPS flags a Sub impl that adds', not rops.check_impl(fx['fns']['<phase::Phase as std::ops::Sub>::sub'], 'Sub', False)[0])
     ck.control('R-OPS flags swapped operands', not rops.check_impl(fx['fns']['<phase::Phase as std::ops::Div>::div'], 'Div', False)[0])
     ck.control('R-ENCAP flags a literal outside the constructor', any(not ok for _k, ok, _s, _m in d1_encap(ck, fx)))
+    try:
+        rq = refequiv.analyse(fixture()['fns']['phase::utils::limit_denominator'])
+    except refequiv.NotUnderstood:
+        rq = []
+    ck.control('R-REFEQ flags a tie that goes to the other candidate', any(slot == 'final-compare' and ok is False for slot, ok, _m in rq))
 
 
 def _show(d):
